@@ -25,7 +25,7 @@ TEXT = {
  "C06": ("Real VectorEngine/HNSW against an f64 reference scorer: exhaustive-search exactness, cached-index soundness after every mutation API, re-ranking searches under every extended metric, queries of another dimension on every index-assisted path, failing operations followed by a re-read of the model (partial effects), huge k / ef in child processes, searches in flight on several threads while every mutation API runs and index builds overlapping mutations (judged from call brackets and after the join), read-back exactness, on random stores (dense/sparse/zero/duplicate/mixed dimensions) and operation programs.",
          "Held on the programs explored; <=300 vectors, dim <=64 (+ some 384/768); epsilon for f32-vs-f64.",
          "runtime monitoring: reference-scorer oracle over randomized operation programs"),
- "C07": ("Stores filled through the real engines and raw puts (including cache-ring keys and incompressible payloads) are saved/loaded through 9 paths (plus routers built with SlabRouter::with_config at embedding dimensions 1-600) and re-observed through store and engine read APIs including relational-slab index reads after random schema/index histories, key reads (exists, prefix scan) over keys of every UTF-8 class, and stores filled past slab chunk / blob segment / cache-ring capacities (deep equality, documented tolerance for tensor-train vectors); atomic replacement is checked by killing a real save at every write/open/rename syscall under strace and loading the destination, by a protocol check on the syscall log, by enumerating temp-file prefixes and stale temp files, and by re-snapshotting after further writes.",
+ "C07": ("Stores filled through the real engines and raw puts (including cache-ring keys and incompressible payloads) are saved/loaded through 9 paths (plus routers built with SlabRouter::with_config at embedding dimensions 1-600) and re-observed through store and engine read APIs including relational-slab index reads after random schema/index histories, key reads (exists, prefix scan) over keys of every UTF-8 class, stores filled past slab chunk / blob segment / cache-ring capacities, and text that looks like the textual form of another value kind (typed comparison of strings, bytes, pointers, relational cells, graph properties) (deep equality, documented tolerance for tensor-train vectors); atomic replacement is checked by killing a real save at every write/open/rename syscall under strace and loading the destination, by a protocol check on the syscall log, by enumerating temp-file prefixes and stale temp files, and by re-snapshotting after further writes.",
          "Process-kill model; dense random >=256-dim vectors are not judged (no documented bound when the rank cap binds).",
          "runtime monitoring: record-and-compare oracle + strace kill injection and syscall-log protocol monitor"),
  "C08": ("Random statement programs through the real QueryRouter (sync, async and parsed-statement entry points, query cache on/off, plain and Bloom-filter stores) with CHECKPOINT / ROLLBACK TO; the observation vector (table, graph, embedding queries) recorded at checkpoint time must be reproduced after rollback; further writes must work; retention keeps the newest N, also over repeated checkpoint/rollback cycles that reuse names of purged checkpoints and after rollbacks far back followed by a full turnover of the list.",
@@ -40,10 +40,10 @@ TEXT = {
  "C11": ("2-8 OS threads on 1-4 contended keys of every key class on one real TensorStore (durable and not); client-boundary history with atomic ticks; self-describing values detect torn/mixed reads; per-key Wing-Gong linearizability check; scan atomicity over >2000 keys against real-time ordered write pairs; recovered-state == live-state after quiescence with checkpoints concurrent to the writers; deterministic two-writer schedule at the put_durable hook; rounds in which every key has a single writer thread (exact judgement of each read), rounds in which the durable log refuses records (refused writes are open operations; the files a crash would leave must recover to the live state); the same workload under ThreadSanitizer.",
          "Held on the interleavings observed; delete's Ok/NotFound result is not judged; scan atomicity is judged for keys of one class.",
          "runtime monitoring: linearizability checking of recorded histories + ThreadSanitizer + forced interleavings at hooks"),
- "C12": ("Real LockManager under 2-6 threads with a sound shadow-owner table, key-lock leases that run out and are taken over (aged lock tables, short real leases), model-based sequential programs with expiry and serialize/restore, the real coordinator and a real TxParticipant under retransmitted PREPAREs, stray decisions, stale sweeps and save/load against a reference key->holder table, preparing threads against an orphan-lock sweeper thread, and the real WaitForGraph/DeadlockDetector against a reference SCC on all digraphs over <=4 transactions and random ones up to 8.",
+ "C12": ("Real LockManager under 2-6 threads with a sound shadow-owner table, key-lock leases that run out and are taken over (aged lock tables, short real leases), model-based sequential programs with expiry and serialize/restore, the real coordinator and a real TxParticipant under retransmitted PREPAREs, stray decisions, stale sweeps and save/load against a reference key->holder table, preparing threads against an orphan-lock sweeper thread, requester threads taking over expired locks while expiry sweeps and late completions run, and the real WaitForGraph/DeadlockDetector against a reference SCC on all digraphs over <=4 transactions and random ones up to 8.",
          "Held on what was explored; expiry windows are don't-care.",
          "runtime monitoring: shadow-state monitor + reference oracle (exhaustive for <=4 transactions)"),
- "C13": ("Real coordinator with a real TxWal: byte-granular crash images (chains of 3) are recovered and probed (commit/abort/timeouts/pending decisions/new transactions) against a classification the harness decodes itself from the durable prefix (including lock handles of completed transactions, completions logged after the restart, outcomes announced by commit/abort/cleanup_timeouts/complete_* or handed out by get_pending_decisions before the crash, re-delivered votes and PREPAREs after the restart, every later completion record, and transactions whose log says Prepared although a participant had not voted).",
+ "C13": ("Real coordinator with a real TxWal: byte-granular crash images (chains of 3) are recovered and probed (commit/abort/timeouts/pending decisions/new transactions) against a classification the harness decodes itself from the durable prefix (including lock handles of completed transactions, completions logged after the restart, outcomes announced by commit/abort/cleanup_timeouts/complete_* or handed out by get_pending_decisions before the crash, re-delivered votes and PREPAREs after the restart, every later completion record, decided transactions passing their deadlines on the restarted coordinator, locks read off the lock table itself, and transactions whose log says Prepared although a participant had not voted).",
          "Process-crash model; see C02.",
          "runtime monitoring: crash-image fault injection with independent log-decoding oracle"),
  "C14": ("Random programs of vault operations by root and 3-5 identities (grants, TTLs, delegation DAGs with plain and cascading revocation, rotation, restarts) compared decision-by-decision with an independent access model (only-if direction), plus byte-substring scans for unique secret names/values in the store image, snapshots, audit records and error messages.",
@@ -55,7 +55,7 @@ TEXT = {
  "C16": ("Real TensorChain: sequential workspace programs, tamper matrix over every stored block and field, concurrent commits (stress and parked at the commit hook), replica replay on two stores, re-opening the chain on crash images with the persisted height behind/ahead of the stored blocks; verify() must accept built chains and reject tampered ones, commits must be atomic.",
          "Held on the programs/interleavings explored.",
          "runtime monitoring: tamper-injection oracle + atomicity/conservation checks under forced interleavings"),
- "C17": ("Real LWWMembershipState / GossipMembershipManager on every multiset of <=4 (quick) / <=5 (thorough) updates over a small universe in every permutation and batching, plus random larger multisets and random programs of merges and local events (Syncs also sent by observed members reporting on themselves), with an online monitor for view equality, monotonicity and retention of every delivered incarnation; the receiving node as an observed member; observer threads asserting that what they read never decreases while other threads deliver; hybrid-logical-clock programs.",
+ "C17": ("Real LWWMembershipState / GossipMembershipManager on every multiset of <=4 (quick) / <=5 (thorough) updates over a small universe in every permutation and batching, plus random larger multisets and random programs of merges and local events (Syncs also sent by observed members reporting on themselves), with an online monitor for view equality, monotonicity and retention of every delivered incarnation; the receiving node as an observed member; delivery interleaved with local events (re-delivery leaves the view unchanged, a fresh replica given the same reports agrees); observer threads asserting that what they read never decreases while other threads deliver; hybrid-logical-clock programs.",
          "Universe bounded (2 members, incarnation 0-2, timestamp 1-2 for the exhaustive part).",
          "runtime monitoring: online oracle over enumerated delivery orders and randomized programs"),
  "C18": ("Real GraphEngine path queries and algorithms against independent reference implementations (BFS, Bellman-Ford, DFS enumeration, Tarjan, Kruskal, peeling, triangle enumeration, exhaustive enumeration of variable-length pattern matches) on random multigraphs with self-loops, parallel edges, mixed direction, filters, and on the graphs left behind by random create/delete/update histories.",
@@ -64,7 +64,7 @@ TEXT = {
  "C19": ("Real BlobStore against a byte-exact model with chunk reference-count conservation at quiescence, sizes around chunk boundaries, damage injection for verify, and concurrent writers/deleters/collectors.",
          "Held on the programs/interleavings explored.",
          "runtime monitoring: model + conservation oracle under concurrency"),
- "C20": ("Round-trip oracles for every codec over generated values, and robustness of every decoder on truncated/bit-flipped/random bytes and on structurally valid encodings of hostile values (unsorted/duplicate/out-of-range position lists, mismatched counts, extreme dimensions, inconsistent tensor-train cores; in memory and through snapshot files) with a counting allocator for allocation limits; crash containment in child processes; Miri on the pure codecs.",
+ "C20": ("Round-trip oracles for every codec over generated values, and robustness of every decoder on truncated/bit-flipped/random bytes and on structurally valid encodings of hostile values (unsorted/duplicate/out-of-range position lists, mismatched counts, extreme dimensions, inconsistent tensor-train cores; in memory and through snapshot files) with a counting allocator for allocation limits; tensor-train accuracy on dense full-rank inputs and prescribed clustered / degenerate spectra; crash containment in child processes; Miri on the pure codecs.",
          "Held on the inputs explored.",
          "runtime monitoring: round-trip and robustness oracles with allocation monitor; Miri on pure codecs"),
 }
